@@ -72,11 +72,15 @@ def run(res, tier, seed):
                   ("gac_pod", "noaa14", 2001, False), ("gac_klm", "noaa16", 2002, True), ("lac_klm", "noaa17", 2003, True),
                   ("gac_pod", "noaa10", 1989, True)]
     coq = []
+    long_done = {}
     with common.scratch_dir() as d:
         tle_dir, tle_name = impl.make_tle_dir(d)
         for fmt, sc, year, drift in plans:
             fam = l1b.FMT[fmt]["family"]
             n = rng.choice([30, 90, 160]) if l1b.FMT[fmt]["res"] == "gac" else rng.choice([30, 80])
+            if plans.index((fmt, sc, year, drift)) in (0, 4) and not long_done.get((fmt, sc)):
+                long_done[(fmt, sc)] = True
+                n = 1300          # one pass of more than 1024 lines per family
             kind = rng.choice(["midnight", "midnight", "newyear", "plain", "leapday", "day366", "twosteps"])
             first = rng.choice([1, 1, 4, 25])
             gaps = [(rng.randrange(2, n - 2), rng.choice([1, 2, 6]))] if rng.random() < 0.6 else []
